@@ -13,15 +13,17 @@ open Gen.Op
 def valIsStr : Val → Bool | .str _ => true | _ => false
 def valIsInt : Val → Bool | .int _ => true | _ => false
 
-/-- an operand of a comparison: a literal with the matching value kind, or a node carrying a string -/
+/-- an operand of a comparison: a literal with the matching value kind, or a node that, if it has a
+variable, carries it as a string (the operands are not loaded with `newFilter`; any other node — a
+nested connective, `Deadcode`, … — is "unsupported binary expr", a located error) -/
 def wfOperand (a : FE) : Bool :=
   if a.op = fString then valIsStr a.value
   else if a.op = fInt then valIsInt a.value
-  else valIsStr a.value
+  else (!hasVar a.op || valIsStr a.value)
 
 def wfLeaf (e : FE) : Bool :=
   match leafKind e.op with
-  | .strArg _ needVar =>
+  | .strArg _ needVar _ =>
     (match e.args[0]? with
      | some a => (a.op != fString || valIsStr a.value)
      | none => false) && (!needVar || valIsStr e.value)
